@@ -5,15 +5,583 @@ open EV.FastMerkle
 
 variable {α : Type}
 
+/-! ### Specification-side lemmas -/
+
+theorem levelRoot_nil (comb : α → α → α) (zero : α) : levelRoot comb zero [] = zero := by
+  rw [levelRoot]
+
+theorem levelRoot_single (comb : α → α → α) (zero a : α) : levelRoot comb zero [a] = a := by
+  rw [levelRoot]
+
+theorem levelRoot_cons_cons (comb : α → α → α) (zero a b : α) (rest : List α) :
+    levelRoot comb zero (a :: b :: rest) = levelRoot comb zero (pairUp comb (a :: b :: rest)) := by
+  rw [levelRoot]
+
+theorem levelRoot_pairUp (comb : α → α → α) (zero : α) (l : List α) :
+    levelRoot comb zero (pairUp comb l) = levelRoot comb zero l := by
+  match l with
+  | [] => simp [pairUp]
+  | [a] => simp [pairUp]
+  | a :: b :: rest => rw [levelRoot_cons_cons]
+
+theorem pairUp_length (comb : α → α → α) (l : List α) :
+    (pairUp comb l).length = (l.length + 1) / 2 := by
+  fun_induction pairUp comb l with
+  | case1 a b rest ih => simp [ih]; omega
+  | case2 a => simp
+  | case3 => simp
+
+/-! ### Bound-generic copies of the coded loops
+
+The coded loops test `level ≥ 32` and `count ≥ 2^32`.  To reason by recursion on the slot list
+(dropping slot 0 and halving the counter) the bound is made a parameter. -/
+
+def carryB (comb : α → α → α) (B : Nat) (inner : List α) (count : Nat) : Nat → Nat → α → Option (Nat × α)
+  | 0, _, _ => none
+  | fuel+1, level, temp =>
+    if level ≥ B then none
+    else if count.testBit level then some (level, temp)
+    else match inner[level]? with
+      | none => none
+      | some x => carryB comb B inner count fuel (level+1) (comb x temp)
+
+def lowestSetB (B : Nat) (count : Nat) : Nat → Nat → Option Nat
+  | 0, _ => none
+  | fuel+1, level =>
+    if level ≥ B then none
+    else if count.testBit level then some level
+    else lowestSetB B count fuel (level+1)
+
+def sweepB (comb : α → α → α) (B FI : Nat) (inner : List α) : Nat → Nat → Nat → α → Option α
+  | 0, _, _, _ => none
+  | fuel+1, count, level, res =>
+    if level ≥ B then none
+    else if count = 2^level then some res
+    else
+      let count' := count + 2^level
+      if count' ≥ 2^B then none
+      else match carryB comb B inner count' FI (level+1) res with
+        | none => none
+        | some (level', res') => sweepB comb B FI inner fuel count' level' res'
+
+theorem carry_eq (comb : α → α → α) (inner : List α) (count fuel level : Nat) (temp : α) :
+    carry comb inner count fuel level temp = carryB comb 32 inner count fuel level temp := by
+  induction fuel generalizing level temp with
+  | zero => simp [carry, carryB]
+  | succ f ih =>
+    simp only [carry, carryB, ih]
+    cases inner[level]? <;> rfl
+
+theorem sweepInner_eq (comb : α → α → α) (inner : List α) (count fuel level : Nat) (temp : α) :
+    sweepInner comb inner count fuel level temp = carryB comb 32 inner count fuel level temp := by
+  induction fuel generalizing level temp with
+  | zero => simp [sweepInner, carryB]
+  | succ f ih =>
+    simp only [sweepInner, carryB, ih]
+    cases inner[level]? <;> rfl
+
+theorem lowestSet_eq (count fuel level : Nat) :
+    lowestSet count fuel level = lowestSetB 32 count fuel level := by
+  induction fuel generalizing level with
+  | zero => simp [lowestSet, lowestSetB]
+  | succ f ih => simp only [lowestSet, lowestSetB, ih]
+
+theorem sweep_eq (comb : α → α → α) (inner : List α) (fuel count level : Nat) (res : α) :
+    sweep comb inner fuel count level res = sweepB comb 32 34 inner fuel count level res := by
+  induction fuel generalizing count level res with
+  | zero => simp [sweep, sweepB]
+  | succ f ih =>
+    simp only [sweep, sweepB, ih, sweepInner_eq]
+    cases carryB comb 32 inner (count + 2 ^ level) 34 (level + 1) res <;> rfl
+
+/-! ### Shift lemmas: dropping slot 0 halves the counter and lowers every level by one -/
+
+def shiftRes : Option (Nat × α) → Option (Nat × α)
+  | none => none
+  | some (l, t) => some (l + 1, t)
+
+theorem carryB_shift (comb : α → α → α) (B : Nat) (s : α) (inner : List α) (count fuel level : Nat)
+    (temp : α) :
+    carryB comb (B+1) (s :: inner) count fuel (level+1) temp
+      = shiftRes (carryB comb B inner (count/2) fuel level temp) := by
+  induction fuel generalizing level temp with
+  | zero => simp [carryB, shiftRes]
+  | succ f ih =>
+    simp only [carryB, Nat.testBit_succ, List.getElem?_cons_succ, ih]
+    by_cases h1 : level ≥ B
+    · simp [h1, shiftRes]
+    · simp only [ge_iff_le, Nat.add_le_add_iff_right, h1, if_false]
+      by_cases h2 : (count/2).testBit level
+      · simp [h2, shiftRes]
+      · simp only [h2]
+        cases inner[level]? <;> simp [shiftRes]
+
+theorem lowestSetB_shift (B count fuel level : Nat) :
+    lowestSetB (B+1) count fuel (level+1)
+      = (lowestSetB B (count/2) fuel level).map (· + 1) := by
+  induction fuel generalizing level with
+  | zero => simp [lowestSetB]
+  | succ f ih =>
+    simp only [lowestSetB, Nat.testBit_succ, ih]
+    by_cases h1 : level ≥ B
+    · simp [h1]
+    · simp only [ge_iff_le, Nat.add_le_add_iff_right, h1, if_false]
+      by_cases h2 : (count/2).testBit level
+      · simp [h2]
+      · simp [h2]
+
+theorem sweepB_shift (comb : α → α → α) (B FI : Nat) (s : α) (inner : List α)
+    (fuel count level : Nat) (res : α) (heven : count % 2 = 0) :
+    sweepB comb (B+1) FI (s :: inner) fuel count (level+1) res
+      = sweepB comb B FI inner fuel (count/2) level res := by
+  induction fuel generalizing count level res with
+  | zero => simp [sweepB]
+  | succ f ih =>
+    simp only [sweepB]
+    by_cases h1 : level ≥ B
+    · simp [h1]
+    · simp only [ge_iff_le, Nat.add_le_add_iff_right, h1, if_false]
+      have hp : (2:Nat)^(level+1) = 2 * 2^level := by rw [Nat.pow_succ, Nat.mul_comm]
+      have hB : (2:Nat)^(B+1) = 2 * 2^B := by rw [Nat.pow_succ, Nat.mul_comm]
+      have e1 : (count = 2^(level+1)) ↔ (count/2 = 2^level) := by rw [hp]; omega
+      have e2 : (count + 2^(level+1)) / 2 = count/2 + 2^level := by rw [hp]; omega
+      have e3 : (2^(B+1) ≤ count + 2^(level+1)) ↔ (2^B ≤ count/2 + 2^level) := by
+        rw [hp, hB]; omega
+      have e4 : (count + 2^(level+1)) % 2 = 0 := by rw [hp]; omega
+      simp only [e1, e3]
+      by_cases h2 : count/2 = 2^level
+      · simp [h2]
+      · simp only [h2, if_false]
+        by_cases h3 : 2^B ≤ count/2 + 2^level
+        · simp [h3]
+        · simp only [h3, if_false]
+          rw [carryB_shift, e2]
+          cases hc : carryB comb B inner (count/2 + 2^level) FI (level+1) res with
+          | none => simp [shiftRes]
+          | some p =>
+            obtain ⟨l', r'⟩ := p
+            simp only [shiftRes]
+            rw [ih _ _ _ e4, e2]
+
+/-! ### Pairing without promotion, and the recursive slot invariant -/
+
+/-- pair adjacent nodes, dropping an unpaired last node -/
+def pairsDown (comb : α → α → α) : List α → List α
+  | a :: b :: rest => comb a b :: pairsDown comb rest
+  | [_] => []
+  | [] => []
+
+theorem pairsDown_length (comb : α → α → α) (l : List α) :
+    (pairsDown comb l).length = l.length / 2 := by
+  fun_induction pairsDown comb l with
+  | case1 a b rest ih => simp [ih]; omega
+  | case2 a => simp
+  | case3 => simp
+
+theorem getLast?_rest_of_odd (a b : α) (rest : List α) (s : α)
+    (h : (a :: b :: rest).length % 2 = 1) (hs : (a :: b :: rest).getLast? = some s) :
+    rest.getLast? = some s := by
+  cases rest with
+  | nil => simp at h
+  | cons c r => simpa [List.getLast?_cons_cons] using hs
+
+theorem pairsDown_snoc_even (comb : α → α → α) (l : List α) (x : α) (h : l.length % 2 = 0) :
+    pairsDown comb (l ++ [x]) = pairsDown comb l := by
+  fun_induction pairsDown comb l with
+  | case1 a b rest ih =>
+    simp only [List.cons_append, pairsDown, List.cons.injEq, true_and]
+    apply ih; simp at h; omega
+  | case2 a => simp at h
+  | case3 => simp [pairsDown]
+
+theorem pairsDown_snoc_odd (comb : α → α → α) (l : List α) (s x : α) (h : l.length % 2 = 1)
+    (hs : l.getLast? = some s) :
+    pairsDown comb (l ++ [x]) = pairsDown comb l ++ [comb s x] := by
+  fun_induction pairsDown comb l with
+  | case1 a b rest ih =>
+    simp only [List.cons_append, pairsDown, List.cons.injEq, true_and]
+    apply ih
+    · simp at h; omega
+    · exact getLast?_rest_of_odd a b rest s h hs
+  | case2 a =>
+    simp at hs
+    simp [pairsDown, hs]
+  | case3 => simp at h
+
+theorem pairUp_snoc_even (comb : α → α → α) (l : List α) (x : α) (h : l.length % 2 = 0) :
+    pairUp comb (l ++ [x]) = pairsDown comb l ++ [x] := by
+  fun_induction pairsDown comb l with
+  | case1 a b rest ih =>
+    simp only [List.cons_append, pairUp, List.cons.injEq, true_and]
+    apply ih; simp at h; omega
+  | case2 a => simp at h
+  | case3 => simp [pairUp]
+
+theorem pairUp_snoc_odd (comb : α → α → α) (l : List α) (s x : α) (h : l.length % 2 = 1)
+    (hs : l.getLast? = some s) :
+    pairUp comb (l ++ [x]) = pairsDown comb l ++ [comb s x] := by
+  fun_induction pairsDown comb l with
+  | case1 a b rest ih =>
+    simp only [List.cons_append, pairUp, List.cons.injEq, true_and]
+    apply ih
+    · simp at h; omega
+    · exact getLast?_rest_of_odd a b rest s h hs
+  | case2 a =>
+    simp at hs
+    simp [pairUp, hs]
+  | case3 => simp at h
+
+theorem pairUp_even (comb : α → α → α) (l : List α) (h : l.length % 2 = 0) :
+    pairUp comb l = pairsDown comb l := by
+  fun_induction pairsDown comb l with
+  | case1 a b rest ih =>
+    simp only [pairUp, List.cons.injEq, true_and]
+    apply ih; simp at h; omega
+  | case2 a => simp at h
+  | case3 => simp [pairUp]
+
+theorem pairUp_odd (comb : α → α → α) (l : List α) (s : α) (h : l.length % 2 = 1)
+    (hs : l.getLast? = some s) :
+    pairUp comb l = pairsDown comb l ++ [s] := by
+  fun_induction pairsDown comb l with
+  | case1 a b rest ih =>
+    simp only [pairUp, List.cons_append, List.cons.injEq, true_and]
+    apply ih
+    · simp at h; omega
+    · exact getLast?_rest_of_odd a b rest s h hs
+  | case2 a =>
+    simp at hs
+    simp [pairUp, hs]
+  | case3 => simp at h
+
+/-- Slot invariant, by recursion on the slots: slot 0 holds the last leaf when the count is odd; the
+    remaining slots are the state for the paired-down list with the halved count. -/
+def InvR (comb : α → α → α) : List α → Nat → List α → Prop
+  | [], _, _ => True
+  | s :: rest, k, pre => (k % 2 = 1 → pre.getLast? = some s) ∧ InvR comb rest (k/2) (pairsDown comb pre)
+
+theorem InvR_zero (comb : α → α → α) (inner : List α) : InvR comb inner 0 [] := by
+  induction inner with
+  | nil => trivial
+  | cons s rest ih => exact ⟨by simp, by simpa [pairsDown] using ih⟩
+
+/-- the sweep, structurally: fold the occupied slots upwards into `res` -/
+def sweepSpec (comb : α → α → α) : List α → Nat → α → α
+  | [], _, res => res
+  | s :: rest, k, res =>
+    if k % 2 = 1 then sweepSpec comb rest (k/2) (comb s res) else sweepSpec comb rest (k/2) res
+
+theorem sweepSpec_eq (comb : α → α → α) (zero : α) (inner : List α) (k : Nat) (pre : List α) (res : α)
+    (hinv : InvR comb inner k pre) (hlen : pre.length = k) (hk : k < 2^inner.length) :
+    sweepSpec comb inner k res = levelRoot comb zero (pre ++ [res]) := by
+  induction inner generalizing k pre res with
+  | nil =>
+    simp at hk
+    subst hk
+    have : pre = [] := List.eq_nil_of_length_eq_zero hlen
+    subst this
+    simp [sweepSpec, levelRoot_single]
+  | cons s rest ih =>
+    obtain ⟨h0, hrest⟩ := hinv
+    have hl2 : (pairsDown comb pre).length = k/2 := by rw [pairsDown_length, hlen]
+    have hk2 : k/2 < 2^rest.length := by
+      simp only [List.length_cons, Nat.pow_succ] at hk; omega
+    rw [← levelRoot_pairUp]
+    by_cases hodd : k % 2 = 1
+    · simp only [sweepSpec, hodd, if_true]
+      rw [ih (k/2) _ _ hrest hl2 hk2, pairUp_snoc_odd comb pre s res (by omega) (h0 hodd)]
+    · simp only [sweepSpec, hodd, if_false]
+      rw [ih (k/2) _ _ hrest hl2 hk2, pairUp_snoc_even comb pre res (by omega)]
+
+/-! ### First loop: pushing a leaf preserves the invariant -/
+
+theorem carryB_push (comb : α → α → α) (inner : List α) :
+    ∀ (k : Nat) (pre : List α) (x : α) (fuel : Nat),
+      k + 1 < 2^inner.length → inner.length < fuel →
+      InvR comb inner k pre → pre.length = k →
+      ∃ l t, carryB comb inner.length inner (k+1) fuel 0 x = some (l, t) ∧
+        InvR comb (inner.set l t) (k+1) (pre ++ [x]) := by
+  induction inner with
+  | nil => intro k pre x fuel hk; simp at hk
+  | cons s rest ih =>
+    intro k pre x fuel hk hfuel hinv hlen
+    obtain ⟨h0, hrest⟩ := hinv
+    simp only [List.length_cons] at hk hfuel ⊢
+    match fuel, hfuel with
+    | f+1, hfuel =>
+      by_cases hodd : k % 2 = 1
+      · -- slot 0 occupied: merge and carry on
+        have hb : (k+1).testBit 0 = false := by
+          rw [Nat.testBit_zero]; simp; omega
+        have hk2 : k/2 + 1 < 2^rest.length := by
+          rw [Nat.pow_succ] at hk; omega
+        have hl2 : (pairsDown comb pre).length = k/2 := by rw [pairsDown_length, hlen]
+        obtain ⟨l, t, hc, hi⟩ := ih (k/2) (pairsDown comb pre) (comb s x) f hk2 (by omega) hrest hl2
+        refine ⟨l+1, t, ?_, ?_⟩
+        · simp only [carryB, hb]
+          simp only [ge_iff_le, Nat.le_zero_eq, Nat.add_one_ne_zero, if_false, Bool.false_eq_true,
+            List.getElem?_cons_zero]
+          rw [carryB_shift]
+          have : (k+1)/2 = k/2 + 1 := by omega
+          rw [this, hc]; rfl
+        · simp only [List.set_cons_succ]
+          refine ⟨by omega, ?_⟩
+          have : (k+1)/2 = k/2 + 1 := by omega
+          rw [this, pairsDown_snoc_odd comb pre s x (by omega) (h0 hodd)]
+          exact hi
+      · -- slot 0 free: store the leaf
+        have hb : (k+1).testBit 0 = true := by
+          rw [Nat.testBit_zero]; simp; omega
+        refine ⟨0, x, ?_, ?_⟩
+        · simp [carryB, hb]
+        · simp only [List.set_cons_zero]
+          refine ⟨by simp, ?_⟩
+          have : (k+1)/2 = k/2 := by omega
+          rw [this, pairsDown_snoc_even comb pre x (by omega)]
+          exact hrest
+
+theorem pushAll_inv (comb : α → α → α) (ls : List α) :
+    ∀ (inner : List α) (k : Nat) (pre : List α),
+      inner.length = 32 → k + ls.length < 2^32 →
+      InvR comb inner k pre → pre.length = k →
+      ∃ inner', pushAll comb (inner, k) ls = some (inner', k + ls.length) ∧
+        inner'.length = 32 ∧ InvR comb inner' (k + ls.length) (pre ++ ls) := by
+  induction ls with
+  | nil =>
+    intro inner k pre hl _ hinv _
+    exact ⟨inner, by simp [pushAll], hl, by simpa using hinv⟩
+  | cons x ls ih =>
+    intro inner k pre hl hk hinv hlen
+    simp only [List.length_cons] at hk
+    obtain ⟨l, t, hc, hi⟩ := carryB_push comb inner k pre x 33 (by rw [hl]; omega) (by omega) hinv hlen
+    rw [hl] at hc
+    obtain ⟨inner', hp, hl', hi'⟩ := ih (inner.set l t) (k+1) (pre ++ [x]) (by simpa using hl)
+      (by omega) hi (by simp [hlen])
+    refine ⟨inner', ?_, hl', ?_⟩
+    · have hno : ¬ (k + 1 ≥ 2^32) := by omega
+      simp only [pushAll, pushLeaf, hno, if_false, carry_eq, hc, setSlot]
+      rw [hp]
+      simp only [List.length_cons]
+      congr 2; omega
+    · have e1 : k + (x :: ls).length = k + 1 + ls.length := by simp; omega
+      have e2 : pre ++ x :: ls = pre ++ [x] ++ ls := by simp
+      rw [e1, e2]; exact hi'
+
+/-! ### Second loop: the coded sweep computes `sweepSpec` -/
+
+/-- inner carry loop followed by the rest of the outer loop -/
+def carryThenSweep (comb : α → α → α) (B FI : Nat) (inner : List α) (fI fO c : Nat) (res : α) : Option α :=
+  match carryB comb B inner c fI 0 res with
+  | none => none
+  | some (j, r) => sweepB comb B FI inner fO c j r
+
+theorem sweepSpec_zero (comb : α → α → α) (inner : List α) (res : α) :
+    sweepSpec comb inner 0 res = res := by
+  induction inner with
+  | nil => rfl
+  | cons s rest ih => simpa [sweepSpec] using ih
+
+theorem cts_shift (comb : α → α → α) (B FI : Nat) (s : α) (rest : List α) (fI fO c lvl : Nat) (res : α)
+    (heven : c % 2 = 0) :
+    (match shiftRes (carryB comb B rest (c/2) fI lvl res) with
+      | none => none
+      | some (j, r) => sweepB comb (B+1) FI (s :: rest) fO c j r)
+    = (match carryB comb B rest (c/2) fI lvl res with
+      | none => none
+      | some (j, r) => sweepB comb B FI rest fO (c/2) j r) := by
+  cases carryB comb B rest (c/2) fI lvl res with
+  | none => simp [shiftRes]
+  | some p =>
+    obtain ⟨j, r⟩ := p
+    simp only [shiftRes]
+    rw [sweepB_shift _ _ _ _ _ _ _ _ _ heven]
+
+theorem sweep_spec (comb : α → α → α) (FI : Nat) (inner : List α) :
+    ∀ (n c fI fO : Nat) (res : α), inner.length = n + 1 → 1 ≤ c → c ≤ 2^n →
+      n < fI → n < FI → n < fO →
+      carryThenSweep comb (n+1) FI inner fI fO c res = some (sweepSpec comb inner (c-1) res) := by
+  induction inner with
+  | nil => intro n c fI fO res h; simp at h
+  | cons s rest ih =>
+    intro n c fI fO res hlen hc1 hc hfI hFI hfO
+    have hrl : rest.length = n := by simpa using hlen
+    match fI, hfI, fO, hfO with
+    | gI+1, hfI, gO+1, hfO =>
+    by_cases hodd : c % 2 = 1
+    · -- bit 0 of c set: carry loop stops at once, outer loop at level 0
+      have hb : c.testBit 0 = true := by rw [Nat.testBit_zero]; simp; omega
+      have hss : sweepSpec comb (s :: rest) (c-1) res = sweepSpec comb rest ((c-1)/2) res := by
+        have : ¬ ((c-1) % 2 = 1) := by omega
+        simp only [sweepSpec, this, if_false]
+      simp only [carryThenSweep, carryB, hb]
+      simp only [ge_iff_le, Nat.le_zero_eq, Nat.add_one_ne_zero, if_false, if_true]
+      rw [hss]
+      simp only [sweepB]
+      simp only [ge_iff_le, Nat.le_zero_eq, Nat.add_one_ne_zero, if_false, Nat.pow_zero]
+      by_cases hone : c = 1
+      · subst hone
+        simp [sweepSpec_zero]
+      · simp only [hone, if_false]
+        cases n with
+        | zero => simp at hc; omega
+        | succ m =>
+          have hp : (2:Nat)^(m+1) = 2 * 2^m := by rw [Nat.pow_succ, Nat.mul_comm]
+          have hp2 : (2:Nat)^(m+1+1) = 2 * 2^(m+1) := by rw [Nat.pow_succ, Nat.mul_comm]
+          have hno : ¬ (2^(m+1+1) ≤ c + 1) := by rw [hp2]; omega
+          simp only [hno, if_false]
+          rw [carryB_shift]
+          have heven : (c+1) % 2 = 0 := by omega
+          rw [cts_shift comb (m+1) FI s rest FI gO (c+1) 0 res heven]
+          have := ih m ((c+1)/2) FI gO res hrl (by omega) (by rw [hp] at hc; omega) (by omega)
+            (by omega) (by omega)
+          simp only [carryThenSweep] at this
+          rw [this]
+          congr 2
+          omega
+    · -- bit 0 of c clear: merge slot 0 and carry on
+      have hb : c.testBit 0 = false := by rw [Nat.testBit_zero]; simp; omega
+      have hss : sweepSpec comb (s :: rest) (c-1) res = sweepSpec comb rest ((c-1)/2) (comb s res) := by
+        have : (c-1) % 2 = 1 := by omega
+        simp only [sweepSpec, this, if_true]
+      simp only [carryThenSweep, carryB, hb]
+      simp only [ge_iff_le, Nat.le_zero_eq, Nat.add_one_ne_zero, if_false, Bool.false_eq_true,
+        List.getElem?_cons_zero]
+      rw [hss]
+      cases n with
+      | zero => simp at hc; omega
+      | succ m =>
+        have hp : (2:Nat)^(m+1) = 2 * 2^m := by rw [Nat.pow_succ, Nat.mul_comm]
+        rw [carryB_shift]
+        have heven : c % 2 = 0 := by omega
+        rw [cts_shift comb (m+1) FI s rest gI (gO+1) c 0 (comb s res) heven]
+        have := ih m (c/2) gI (gO+1) (comb s res) hrl (by omega) (by rw [hp] at hc; omega) (by omega)
+          (by omega) (by omega)
+        simp only [carryThenSweep] at this
+        rw [this]
+        congr 2
+        omega
+
+theorem cts_odd (comb : α → α → α) (B FI : Nat) (inner : List α) (fI fO c : Nat) (res : α)
+    (hodd : c % 2 = 1) :
+    carryThenSweep comb (B+1) FI inner (fI+1) fO c res = sweepB comb (B+1) FI inner fO c 0 res := by
+  have hb : c.testBit 0 = true := by rw [Nat.testBit_zero]; simp; omega
+  simp [carryThenSweep, carryB, hb]
+
+/-! ### Lowest set bit, first slot and sweep together -/
+
+theorem final_spec (comb : α → α → α) (zero : α) (FI : Nat) (inner : List α) :
+    ∀ (n k fL fO : Nat) (pre : List α), inner.length = n + 1 → 1 ≤ k → k ≤ 2^n →
+      InvR comb inner k pre → pre.length = k →
+      n < fL → n < FI → n < fO →
+      ∃ l r, lowestSetB (n+1) k fL 0 = some l ∧ inner[l]? = some r ∧
+        sweepB comb (n+1) FI inner fO k l r = some (levelRoot comb zero pre) := by
+  induction inner with
+  | nil => intro n k fL fO pre h; simp at h
+  | cons s rest ih =>
+    intro n k fL fO pre hlen hk1 hk hinv hpl hfL hFI hfO
+    have hrl : rest.length = n := by simpa using hlen
+    obtain ⟨h0, hrest⟩ := hinv
+    have hl2 : (pairsDown comb pre).length = k/2 := by rw [pairsDown_length, hpl]
+    match fL, hfL with
+    | gL+1, hfL =>
+    by_cases hodd : k % 2 = 1
+    · have hb : k.testBit 0 = true := by rw [Nat.testBit_zero]; simp; omega
+      refine ⟨0, s, by simp [lowestSetB, hb], by simp, ?_⟩
+      rw [← cts_odd comb n FI (s :: rest) n fO k s hodd]
+      rw [sweep_spec comb FI (s :: rest) n k (n+1) fO s hlen hk1 hk (by omega) hFI hfO]
+      have hne : ¬ ((k-1) % 2 = 1) := by omega
+      simp only [sweepSpec, hne, if_false]
+      have hk2 : k/2 < 2^rest.length := by rw [hrl]; omega
+      have e : (k-1)/2 = k/2 := by omega
+      rw [e, sweepSpec_eq comb zero rest (k/2) _ s hrest hl2 hk2]
+      rw [← pairUp_odd comb pre s (by omega) (h0 hodd), levelRoot_pairUp]
+    · have hb : k.testBit 0 = false := by rw [Nat.testBit_zero]; simp; omega
+      cases n with
+      | zero => simp at hk; omega
+      | succ m =>
+        have hp : (2:Nat)^(m+1) = 2 * 2^m := by rw [Nat.pow_succ, Nat.mul_comm]
+        obtain ⟨l, r, hl, hr, hsw⟩ := ih m (k/2) gL fO (pairsDown comb pre) hrl (by omega)
+          (by rw [hp] at hk; omega) hrest hl2 (by omega) (by omega) (by omega)
+        refine ⟨l+1, r, ?_, by simpa using hr, ?_⟩
+        · simp only [lowestSetB, hb]
+          simp only [ge_iff_le, Nat.le_zero_eq, Nat.add_one_ne_zero, if_false, Bool.false_eq_true]
+          rw [lowestSetB_shift, hl]; rfl
+        · rw [sweepB_shift _ _ _ _ _ _ _ _ _ (by omega), hsw]
+          rw [← pairUp_even comb pre (by omega), levelRoot_pairUp]
+
+/-! ### Main theorem -/
+
 theorem fast_eq_level (comb : α → α → α) (zero : α) (leaves : List α)
     (h : leaves.length ≤ 2^31) :
     fast comb zero leaves = some (levelRoot comb zero leaves) := by
-  sorry
+  cases leaves with
+  | nil => simp [fast, levelRoot_nil]
+  | cons x ls =>
+    obtain ⟨inner, hp, hil, hinv⟩ := pushAll_inv comb (x :: ls) (List.replicate 32 zero) 0 []
+      (by simp) (by omega) (InvR_zero comb _) rfl
+    simp only [Nat.zero_add, List.nil_append] at hp hinv
+    obtain ⟨l, r, hl, hr, hsw⟩ := final_spec comb zero 34 inner 31 (x :: ls).length 33 34 (x :: ls)
+      hil (by simp) h hinv rfl (by omega) (by omega) (by omega)
+    simp only [fast, List.isEmpty_cons, Bool.false_eq_true, if_false, hp, lowestSet_eq, hl, hr,
+      sweep_eq, hsw]
+
+/-! ### `root_commits` -/
+
+theorem pairUp_inj (comb : α → α → α) (l₁ l₂ : List α) (hlen : l₁.length = l₂.length)
+    (h : pairUp comb l₁ = pairUp comb l₂) :
+    l₁ = l₂ ∨ (∃ a b c d, (a, b) ≠ (c, d) ∧ comb a b = comb c d) := by
+  fun_induction pairUp comb l₁ generalizing l₂ with
+  | case1 a b rest ih =>
+    match l₂, hlen with
+    | c :: d :: rest₂, hlen =>
+      simp only [pairUp, List.cons.injEq] at h
+      by_cases hp : (a, b) = (c, d)
+      · have hl : rest.length = rest₂.length := by simpa using hlen
+        rcases ih rest₂ hl h.2 with h' | h'
+        · left
+          simp only [Prod.mk.injEq] at hp
+          rw [hp.1, hp.2, h']
+        · right; exact h'
+      · right; exact ⟨a, b, c, d, hp, h.1⟩
+  | case2 a =>
+    match l₂, hlen with
+    | [c], _ =>
+      simp only [pairUp, List.cons.injEq] at h
+      left; rw [h.1]
+  | case3 =>
+    match l₂, hlen with
+    | [], _ => left; rfl
+
+theorem root_commits_aux (comb : α → α → α) (zero : α) :
+    ∀ (n : Nat) (l₁ l₂ : List α), l₁.length = n → l₂.length = n →
+      levelRoot comb zero l₁ = levelRoot comb zero l₂ →
+      l₁ = l₂ ∨ (∃ a b c d, (a, b) ≠ (c, d) ∧ comb a b = comb c d) := by
+  intro n
+  induction n using Nat.strongRecOn with
+  | ind n ih =>
+    intro l₁ l₂ h₁ h₂ hroot
+    match l₁, l₂, h₁, h₂ with
+    | [], [], _, _ => left; rfl
+    | [a], [c], _, _ =>
+      simp only [levelRoot_single] at hroot
+      left; rw [hroot]
+    | a :: b :: r₁, c :: d :: r₂, h₁, h₂ =>
+      rw [levelRoot_cons_cons, levelRoot_cons_cons] at hroot
+      have hl : (a :: b :: r₁).length = (c :: d :: r₂).length := by rw [h₁, h₂]
+      have hp₁ := pairUp_length comb (a :: b :: r₁)
+      have hp₂ := pairUp_length comb (c :: d :: r₂)
+      have hlt : (pairUp comb (a :: b :: r₁)).length < n := by
+        rw [hp₁, h₁]; simp at h₁; omega
+      have heq : (pairUp comb (c :: d :: r₂)).length = (pairUp comb (a :: b :: r₁)).length := by
+        rw [hp₁, hp₂, hl]
+      rcases ih _ hlt _ _ rfl heq hroot with h' | h'
+      · exact pairUp_inj comb _ _ hl h'
+      · right; exact h'
 
 theorem root_commits (comb : α → α → α) (zero : α) (l₁ l₂ : List α)
     (hlen : l₁.length = l₂.length)
     (hroot : levelRoot comb zero l₁ = levelRoot comb zero l₂) :
-    l₁ = l₂ ∨ (∃ a b c d, (a, b) ≠ (c, d) ∧ comb a b = comb c d) := by
-  sorry
+    l₁ = l₂ ∨ (∃ a b c d, (a, b) ≠ (c, d) ∧ comb a b = comb c d) :=
+  root_commits_aux comb zero l₁.length l₁ l₂ rfl hlen.symm hroot
 
 end EV.Proofs.FastMerkle
